@@ -286,8 +286,14 @@ func cmdReplay(args []string) int {
 				}
 				o := replayOne(beh, nil)
 				if o.mm != nil && o.harness == nil {
-					o2 := replayOne(beh, nil)
-					if o2.harness == nil && (o2.mm == nil || o2.mm.Step != o.mm.Step) {
+					// only a mismatch that reproduces is reported (what a snapshot contains depends on when
+					// Pebble flushed: up to three re-executions)
+					again := false
+					for try := 0; try < 3 && !again; try++ {
+						o2 := replayOne(beh, nil)
+						again = o2.harness == nil && o2.mm != nil && o2.mm.Step == o.mm.Step
+					}
+					if !again {
 						o.harness = fmt.Errorf("a mismatch at step %d did not reproduce on re-execution: %s", o.mm.Step, o.mm.What)
 					}
 				}
